@@ -39,9 +39,12 @@ def _guarded(orig):
 @contextlib.contextmanager
 def size_guard():
     """Rebind assert_level_constraint in the decoder modules with the guarded wrapper."""
-    import vc2_conformance.decoder.picture_syntax as ps
-    import vc2_conformance.decoder.sequence_header as sh
-    import vc2_conformance.decoder.transform_data_syntax as td
+    import importlib
+
+    # NB: "import a.b.c as x" would pick up same-named *functions* re-exported by the package
+    ps = importlib.import_module("vc2_conformance.decoder.picture_syntax")
+    sh = importlib.import_module("vc2_conformance.decoder.sequence_header")
+    td = importlib.import_module("vc2_conformance.decoder.transform_data_syntax")
 
     mods = [ps, sh, td]
     saved = [m.assert_level_constraint for m in mods]
@@ -148,3 +151,36 @@ def iter_slices(sequence):
             yield i, "ld", s
         for s in td.get("hq_slices", []):
             yield i, "hq", s
+
+
+DESER_BOUNDS = dict(luma_width=64, luma_height=64, color_diff_width=64, color_diff_height=64, dwt_depth=4,
+                    dwt_depth_ho=4, slices_x=16, slices_y=16, slice_prefix_bytes=64, slice_size_scaler=64,
+                    slice_bytes_numerator=4096, luma_depth=33, color_diff_depth=33)
+
+
+def _deser_guarded(orig):
+    def guarded(serdes, state, *args, **kwargs):
+        for k, b in DESER_BOUNDS.items():
+            v = state.get(k, 0)
+            if isinstance(v, int) and v > b:
+                raise OutOfScope("%s=%r" % (k, v))
+        return orig(serdes, state, *args, **kwargs)
+
+    return guarded
+
+
+@contextlib.contextmanager
+def deser_guard():
+    """Size guard for the bitstream (de)serialiser / viewer: every declared size field is bounded
+    separately when slice data is about to be processed (DESIGN 2.5)."""
+    import importlib
+
+    V = importlib.import_module("vc2_conformance.bitstream.vc2")
+
+    saved = (V.transform_data, V.fragment_data)
+    try:
+        V.transform_data = _deser_guarded(V.transform_data)
+        V.fragment_data = _deser_guarded(V.fragment_data)
+        yield
+    finally:
+        V.transform_data, V.fragment_data = saved
